@@ -316,29 +316,99 @@ def run(run):
         rr = [n for n in A.own_nodes(pf) if isinstance(n, ast.Return)]
         run.check("R4", len(rr) == 1 and norm(rr[0].value) == f"self.{fld}", f"{prop} getter", key=f"SignerVersion.{prop}|getter", where=pf.loc(),
                   message=f"SignerVersion.{prop} does not return self.{fld}")
+    _signapp_operations(run, PV)
+
+
+def _signapp_operations(run, PV):
+    """R5: what each operation of signapp signs, verifies and stores - decided on the walk of main() with the operation fixed."""
+    P, A = run.P, run.A
+    from sa.decide import cmp_parts
+    run.rule("R5", "signapp, per operation (the walk of main() with options.operation fixed; V = the signer version: the one of the existing output file, or "
+             "SignerVersion(compute_app_hash(app path).hex(), iteration)): `key` completes only with a 32-byte hex key and stores, in the authorization of V, "
+             "SigningKey.from_string(key, SECP256k1).sign_digest(V.get_authorization_digest(), DER), hex, and saves it to the output path; `eth` stores the "
+             "dongle's signature over V.msg for the given path, only if it verifies (DER) under the public key the dongle reported for that path against "
+             "V.get_authorization_digest(); `manual` adds the given signature to the existing file; `hash` prints compute_app_hash(app path). Every completed "
+             "run that stores a signature ends with add_signature, save_to_jsonfile(output path), exit 0.")
     mn = P.func("signapp.main")
-    gm_ = A.cfg(mn, None)
-    sg = [c for c in find_calls(A, mn, "sign_digest")]
-    run.check("R4", len(sg) == 1 and norm(sg[0].args[0]) == "signer_version.get_authorization_digest()"
-              and any(k.arg == "sigencode" and norm(k.value) == "ecdsa.util.sigencode_der" for k in sg[0].keywords),
-              "key path signs the authorization digest, DER", key="signapp|key-sign", where=mn.loc(),
-              message="signapp's key path does not sign signer_version.get_authorization_digest() with DER encoding")
-    skv = set()
-    for c_ in sg:
-        for cn in gm_.nodes_of(c_):
-            skv |= {_strip(x) for x in PV.expand_consistent(mn, None, c_.func.value, cn, stop=("options",))}
-    run.check("R4", skv == {_strip("ecdsa.SigningKey.from_string(bytes.fromhex(options.key), curve=ecdsa.SECP256k1)")},
-              "signing key is the operator's secp256k1 key", key="signapp|key-source", where=mn.loc(), message=f"signapp signs with {sorted(skv)[:2]}")
-    vd = [c for c in find_calls(A, mn, "verify_digest")]
-    run.check("R4", len(vd) == 1 and norm(vd[0].args[1]) == "signer_version.get_authorization_digest()", "eth path verifies the same digest",
-              key="signapp|eth-verify", where=mn.loc(), message="signapp's eth path does not verify the dongle signature over the authorization digest")
-    adds = [c for c in find_calls(A, mn, "add_signature")]
-    run.check("R4", any(norm(c.args[0]) == "signature.hex()" for c in adds), "produced signature is what gets stored", key="signapp|store",
-              where=mn.loc(), message="signapp does not store the signature it produced")
-    # signer_version used for signing is the one of the stored authorization
-    svd = [norm(d.value) for d in defs_of(A, mn, "signer_version")]
-    run.check("R4", sorted(svd) == sorted(["signer_authorization.signer_version", "SignerVersion(app_hash, options.iteration)"]),
-              "signed version == stored version", key="signapp|version-binding", where=mn.loc(), message=f"signer_version definitions: {svd}")
-    sad = [norm(d.value) for d in defs_of(A, mn, "signer_authorization")]
-    run.check("R4", "SignerAuthorization.for_signer_version(signer_version)" in sad, "new authorization built for that version",
-              key="signapp|authorization-binding", where=mn.loc(), message=f"signer_authorization definitions: {sad}")
+    g = A.cfg(mn, None)
+    locs = set(PV.defs(mn, None)) | set(mn.params)
+    SV_FILE = _strip("SignerAuthorization.from_jsonfile(options.output_path).signer_version")
+    SV_NEW = _strip("SignerVersion(compute_app_hash(options.app_path).hex(), options.iteration)")
+    SA_OF = {SV_FILE: _strip("SignerAuthorization.from_jsonfile(options.output_path)"), SV_NEW: _strip(f"SignerAuthorization.for_signer_version({SV_NEW})")}
+    n_done = 0
+    for op in ("key", "eth", "manual", "hash"):
+        def atom(e, op=op):
+            e = fold_consts(P, e, mn, None, locals_=locs)
+            cp = cmp_parts(e)
+            if cp is None:
+                return None
+            l, o, r = cp
+            if norm(l) == "options.operation":
+                if o in ("==", "!=") and isinstance(r, ast.Constant):
+                    return ((op == r.value) == (o == "=="), True)
+                if o in ("in", "not in") and isinstance(r, (ast.List, ast.Tuple, ast.Set)) and all(isinstance(x, ast.Constant) for x in r.elts):
+                    return ((op in [x.value for x in r.elts]) == (o == "in"), True)
+            return None
+        for lf in Walker(A, mn, None, atom, max_leaves=4000, max_steps=400000, through_with=True).walk(g.entry):
+            calls = [(st_, v_) for k_, st_, v_ in lf.effects if k_ == "expr" and isinstance(v_, ast.Call)]
+            if lf.kind != "dead" or not calls or _strip(norm(calls[-1][1])) != "sys.exit(0)":
+                continue
+            work = [(st_, v_) for st_, v_ in calls if call_name(v_) not in ("info", "head", "exit", "disable", "add_argument")]
+            where = mn.loc(calls[-1][0])
+            pcs = {k[1:]: b for k, b in lf.pc.items() if isinstance(k, str) and k.startswith("?")}
+
+            def D(e):
+                return _strip(norm(lf.deep(e, stop=("options",))))
+            if op == "hash":
+                infos = [v_ for st_, v_ in calls if call_name(v_) == "info"]
+                last = D(infos[-1].args[0]) if infos and infos[-1].args else None
+                n_done += 1
+                run.check("R5", last is not None and "compute_app_hash(options.app_path).hex()" in last and not work, "`hash` prints the hash of the given image",
+                          key="signapp|hash|printed", where=where, message=f"signapp hash ends printing `{last}` (other work: {[norm(v_)[:40] for _, v_ in work]}); expected the "
+                          "hex of compute_app_hash(options.app_path)")
+                continue
+            if op == "eth" and pcs.get("options.pubkey") is True:
+                continue        # only the public key is asked for
+            adds = [v_ for st_, v_ in work if call_name(v_) == "add_signature"]
+            saves = [v_ for st_, v_ in work if call_name(v_) == "save_to_jsonfile"]
+            n_done += 1
+            oks = len(adds) == 1 and len(saves) == 1 and work and work[-1][1] is saves[0] and any(v_ is adds[0] for _, v_ in work[-2:-1]) \
+                and len(saves[0].args) == 1 and D(saves[0].args[0]) == "options.output_path" and D(saves[0].func.value) == D(adds[0].func.value)
+            run.check("R5", oks, f"`{op}`: ends with add_signature, then save to the output path, of one authorization", key=f"signapp|{op}|tail", where=where,
+                      message=f"signapp {op} completes with {[norm(v_)[:50] for _, v_ in work[-3:]]}; expected <authorization>.add_signature(..) then the same "
+                              "authorization's save_to_jsonfile(options.output_path)")
+            if not oks:
+                continue
+            sa_t = D(adds[0].func.value)
+            sig_t = D(adds[0].args[0]) if adds[0].args else ""
+            if op == "manual":
+                run.check("R5", sa_t == SA_OF[SV_FILE] and sig_t == "options.signature", "`manual`: the given signature is added to the existing file", key="signapp|manual|what", where=where,
+                          message=f"signapp manual adds `{sig_t[:80]}` to `{sa_t[:80]}`; expected options.signature added to the authorization loaded from the output path")
+                continue
+            hit = None
+            for sv_t, sa_want in SA_OF.items():
+                if op == "key":
+                    want_sig = _strip(f"ecdsa.SigningKey.from_string(bytes.fromhex(options.key), curve=ecdsa.SECP256k1).sign_digest({sv_t}.get_authorization_digest(), "
+                                      "sigencode=ecdsa.util.sigencode_der).hex()")
+                else:
+                    want_sig = _strip(f"get_eth_dongle(options.verbose).sign(BIP32Path(options.path), {sv_t}.msg.encode('ascii')).hex()")
+                if sig_t == want_sig and sa_t == sa_want:
+                    hit = sv_t
+            run.check("R5", hit is not None, f"`{op}`: the signature stored is the one over the stored version's message, in that version's authorization", key=f"signapp|{op}|signature", where=where,
+                      message=f"signapp {op} stores `{sig_t[:200]}` in `{sa_t[:120]}`; expected the signature over V's authorization digest / message with V the version of the "
+                              "authorization it is stored in (the device checks signatures against the hash and iteration in the same file)")
+            if hit is None:
+                continue
+            if op == "key":
+                okk = pcs.get("options.key is None") is False and any(k.startswith("is_hex_string_of_length(options.key, 32") and b for k, b in pcs.items())
+                run.check("R5", okk, "`key`: a 32-byte hex key is required", key="signapp|key|key-checked", where=where,
+                          message=f"signapp key completes under {sorted(pcs.items())[:6]} without the key having been checked to be a 32-byte hex string")
+            else:
+                sig_raw = sig_t[:-len(".hex()")]
+                want_v = _strip(f"ecdsa.VerifyingKey.from_string(get_eth_dongle(options.verbose).get_pubkey(BIP32Path(options.path)), curve=ecdsa.SECP256k1)"
+                                f".verify_digest({sig_raw}, {hit}.get_authorization_digest(), sigdecode=ecdsa.util.sigdecode_der)")
+                okv = any(_strip(norm(lf.deep(ast.parse(k, mode='eval').body, stop=('options',)))) == want_v and b for k, b in pcs.items() if "verify_digest" in k)
+                run.check("R5", okv, "`eth`: stored only if it verifies under the dongle's key for that path", key="signapp|eth|verified", where=where,
+                          message="signapp eth stores the dongle's signature without it having verified (DER) against the authorization digest under the public key the dongle "
+                                  f"reported for the same path (conditions on the path: {[k[:60] for k, b in pcs.items() if 'verify' in k]})")
+    run.floor("R5", "completed runs of signapp examined", n_done, 8)
